@@ -1185,7 +1185,7 @@ class ShapeResult:
 
 def explore(shape_id, run, judge, *, max_paths=2000, solver_timeout_ms=20000, max_decisions=4000,
             path_wall_s=60.0, wall_budget_s=None, max_violations=8, check_overflow=True,
-            known_classes=None, on_model=None, profile=False, witnesses_per_class=1,
+            known_classes=None, on_model=None, profile=False, witnesses_per_class=1, smt_samples=0,
             outcome_class=lambda out: str(out[0]) if isinstance(out, tuple) else str(getattr(out, 'cls', out))
             ) -> ShapeResult:
     """run(ctx) -> outcome ;  judge(ctx, outcome) -> list[(name, z3 Bool that must hold)].
@@ -1256,6 +1256,11 @@ def explore(shape_id, run, judge, *, max_paths=2000, solver_timeout_ms=20000, ma
                         extra.append(z3.Not(hit[1]))
                     if clean:
                         res.discharged += 1
+                        if smt_samples and len(res.extra.setdefault('smt', [])) < smt_samples and res.obligations % 3 == 1:
+                            s2 = z3.Solver()
+                            s2.add(ctx.solver.assertions())
+                            s2.add(neg)
+                            res.extra['smt'].append(('unsat', name, s2.to_smt2()))
                 if check_overflow and ctx.obligations:
                     if ctx._check(z3.Not(no_ovf)):
                         res.overflow_paths += 1
